@@ -3,6 +3,7 @@
 use crate::langs::*;
 use crate::rng::Rng;
 use crate::suites::eg::*;
+use crate::suites::rw::*;
 use crate::terms::*;
 use crate::util::*;
 use crate::{Case, Ctx};
@@ -55,6 +56,51 @@ pub fn exec_hist(ops: Vec<Op>) -> Case {
             let after = eg.verif_measure();
             let evs: Vec<&str> = slotted_egraphs::verif::take_events().into_iter().map(|(k, _)| k).collect();
             steps.push(format!("{}>{}:{}", meas(&before), meas(&after), evs.join(".")));
+            // a rewrite iteration every now and then (which rules: a function of the position, so that the history replays)
+            if k % 11 == 7 && eg.total_number_of_nodes() < 120 {
+                let names: [&[&str]; 3] = [&["add-comm", "mul-comm"], &["k-def", "add-assoc"], &["h-def", "sum-swap", "add-comm"]];
+                let rws: Vec<Rewrite<Main>> = names[(k / 11) % 3].iter().filter_map(|n| POOL.iter().find(|r| r.0 == *n)).map(|r| mk_rule(r)).collect();
+                let before = eg.verif_measure();
+                if let Err(e) = guarded(|| apply_rewrites(&mut eg, &rws)) {
+                    return (steps, vec![format!("viol:panic-rewrite-after-op{k}"), format!("panic:{e}")]);
+                }
+                let after = eg.verif_measure();
+                let evs: Vec<&str> = slotted_egraphs::verif::take_events().into_iter().map(|(k, _)| k).collect();
+                steps.push(format!("{}>{}:{}", meas(&before), meas(&after), evs.join(".")));
+                tags.push("t:rewrite-iteration".into());
+            }
+            // extraction from every handle ever returned, old ones included
+            if k % 9 == 8 || k + 1 == ops2.len() {
+                let res = guarded(|| {
+                    let ex = Extractor::<Main, AstSize>::new(&eg, AstSize);
+                    let mut bad: Vec<&'static str> = Vec::new();
+                    for h in &tracked {
+                        let t = ex.extract(h, &eg);
+                        match lookup_rec_expr(&t, &eg) {
+                            Some(a) => {
+                                if !eg.eq(&a, h) {
+                                    bad.push("extracted-from-old-handle-not-eq-handle");
+                                }
+                            }
+                            None => bad.push("extracted-from-old-handle-not-represented"),
+                        }
+                    }
+                    bad
+                });
+                match res {
+                    Ok(bad) => {
+                        for b in bad {
+                            viol(b, &mut tags);
+                        }
+                        tags.push("t:extract-old-handles".into());
+                    }
+                    Err(e) => {
+                        viol(&format!("extract-from-old-handle-panics-op{k}"), &mut tags);
+                        tags.push(format!("panic:{e}"));
+                        return (steps, tags);
+                    }
+                }
+            }
             // everything remembered so far must still hold
             let n = tracked.len();
             let res = guarded(|| {
